@@ -8,7 +8,7 @@ import time
 from pathlib import Path
 
 VERIF = Path(__file__).resolve().parent.parent
-EVID = VERIF / "evidence"
+EVID = Path(os.environ["OPSA_EVIDENCE_DIR"]) if os.environ.get("OPSA_EVIDENCE_DIR") else VERIF / "evidence"
 KNOWN = VERIF / "known_findings.json"
 
 
@@ -116,7 +116,7 @@ class Ledger:
         return 1 if viol else 0
 
     def _write(self, project, files, violations, status, errors=None):
-        EVID.mkdir(exist_ok=True)
+        EVID.mkdir(parents=True, exist_ok=True)
         n_ok = sum(1 for o in self.obls if o["status"] == "discharged")
         distinct = len({self.key(o) for o in self.obls if o.get("nontrivial")})
         level = self.level
